@@ -215,6 +215,26 @@ def part_multi(ctx, helper, root):
     ctx.traces += len(results)
 
 
+def part_lock_order(ctx, helper, root):
+    """"A failing certificate never blocks the others sharing its account and endpoint" rests on C12's
+    `deadlock_free`, whose hypothesis is that every attempt takes the account and endpoint locks in
+    rank order and releases what it holds.  That hypothesis is checked here on the real lock traces of
+    certificates that DO share one account and one endpoint (the same recorded-trace judge as C12:
+    a guard kept too long shows in every attempt, whatever the interleaving of this particular run)."""
+    import random
+    from props import c12
+    for j, (ncert, threads) in enumerate([(3, 2), (4, 1)] if ctx.quick() else [(3, 2), (4, 1), (6, 4), (2, 16), (5, 2)]):
+        sc = c12.build_scenario(random.Random(ctx.seed + j), 7000 + j, "first")
+        sc.update(ncert=ncert, nacc=1, nep=1, threads=threads,
+                  certs=[dict(c, account="acc0", endpoint="ep0") for c in (sc["certs"] * 8)[:ncert]])
+        for k, c in enumerate(sc["certs"]):
+            c["name"] = "crt%d" % k
+            c["identifiers"] = [{"dns": "l%d.example.org" % k, "challenge": "http-01"}]
+        for rnd in c12.run_rounds(sc, os.path.join(root, "locks"), helper):
+            c12.judge_round(ctx, sc, rnd)
+            ctx.count("lock-order:rounds")
+
+
 def run(ctx):
     gen.gen_consts()
     if ctx.replay:
@@ -228,6 +248,7 @@ def run(ctx):
     try:
         part_single(ctx, helper, root)
         part_multi(ctx, helper, root)
+        part_lock_order(ctx, helper, root)
     finally:
         helper.close()
         shutil.rmtree(root, ignore_errors=True)
